@@ -640,9 +640,17 @@ def substitution_check(tier, seed):
         n += 1
         if any(x.is_quantifier() for x in subterms(f)):
             nontriv += 1
+        # both strategies rebuild every child before looking at the node itself: a map entry whose application is
+        # ill-formed somewhere in the formula (e.g. a constant-array index replaced by a non-constant) surfaces as an
+        # error even if an outer most-general replacement would discard that sub-term - an error, not a wrong result
+        try:
+            ref_subst(m, f, sigma, False)
+            inner_ok = True
+        except Exception:
+            inner_ok = False
         for mgs, cls in ((True, MGSubstituter), (False, MSSubstituter)):
             try:
-                want = ref_subst(m, f, sigma, mgs)
+                want = ref_subst(m, f, sigma, mgs) if inner_ok else None
             except Exception:
                 want = None          # the replacement itself is ill-formed (e.g. non-constant array key)
             try:
